@@ -40,7 +40,7 @@ def cases(draw):
         d = min(d, 2)
     return {"row": {"kernel": draw(st.sampled_from(["tpcn", "rwm"])), "resample": draw(st.sampled_from(["mult", "syst"])),
                     "clustering": draw(st.booleans()), "metric": metric, 
-                    "mode": draw(st.sampled_from(["vector", "scalar", "blobs"])), "zero": draw(st.booleans()), "d": d,
+                    "mode": draw(st.sampled_from(["vector", "scalar", "blobs", "blobs_f4", "blobs_int"])), "zero": draw(st.booleans()), "d": d,
                     "boundary": draw(st.sampled_from(["none", "none", "periodic", "reflective"]))},
             "c": sign * 10.0 ** draw(st.floats(-3.0, 3.0)), "seed": draw(st.integers(0, 2**31 - 3)), "narrow": narrow}
 
